@@ -27,6 +27,10 @@ CHECKS = {
                 rule=E1_RULE + ">=1 successful uncommit-type op after a commit of the same denom and >=1 withdrawal rejected inside the 1h lock window"),
     "C13": dict(tests=[e1("TestC13", "rewards")], assumptions=E1_ASSUME,
                 rule=E1_RULE + "revenue collected in >=3 blocks, >=1 deposit and >=1 successful claim"),
+    "C14": dict(tests=[dict(func="TestC14", quick=dict(checks=16000, shards=16, timeout=900), thorough=dict(checks=800000, shards=16, timeout=7000))],
+                assumptions=["keeper-level (E3): messages go through the real router and msg servers on cache contexts of one prepared app; block height is moved on the context (no begin/end blockers are involved in vesting)",
+                             "one owner; vesting-info parameters are changed only to values MsgUpdateVestingInfo.ValidateBasic admits"],
+                rule="rapid-generated op sequences (vest / claim / cancel / vest-now / advance k blocks / governance change of length, max vestings, factor) executed on the real commitment msg servers and on a reference model, compared after every op; non-trivial = sequence containing claim -> cancel -> claim with the last claim strictly inside a schedule; distinct by op sequence"),
     "C15": dict(tests=[e1("TestC15", "everything")], assumptions=E1_ASSUME,
                 rule=E1_RULE + ">=30 successful txs from >=5 modules and >=1 gap >= 1 day (epoch boundary)"),
     "C04": dict(tests=[e1("TestC04", "swap-batch")], assumptions=E1_ASSUME + ["requesters submit only swap requests in a block and their recipients are themselves or passive accounts, so balance changes are attributable"],
